@@ -9,3 +9,13 @@ def add_obligations(pack, tier):
     K.bounded_types(pack, 'C17')
     from contracts import fn_main as MN
     run_contracts(pack, MN.items('C17'))
+    from contracts.packutil import native_guard
+    from contracts import bounded_failure as BFL
+    fname = 'C17/andes/routines:PFlow.run;TDS.run;EIG.run/bounded:infeasible-or-inconsistent-inputs-are-reported-as-failures'
+    r = native_guard(pack, fname, BFL.run)
+    if r is not None:
+        nf, badf = r
+        pack.bounded.append({'function': 'PFlow.run / TDS.run / EIG.run (end to end, failing inputs)', 'kind': 'bounded native: kundur_full, 5 scenarios',
+                             'cases': nf, 'counted_as_proved': False})
+        if badf:
+            pack.violation(fname, {'bounded': True, 'inputs': badf, 'native_cmd': 'contracts/bounded_failure.py'})
